@@ -30,6 +30,26 @@ def fam(name, depth, ann, bases, bin=(), un=(), maps=(), fields=(), types=(), ep
             'cfg': CFG % dict(depth=depth, ann=ann, bases=q(bases), bin=q(bin), un=q(un), maps=q(maps), fields=q(fields), types=q(types))}
 
 
+DEEP = """---- MODULE MichPyDeep ----
+EXTENDS MichPy
+\\* hand-picked types one level deeper than the generated families reach: composite keys that contain a union, a named record or an option of a union
+N == <<"nat", "", "">>
+Nf(f) == <<"nat", f, "">>
+Pr(f, t, l, r) == <<"pair", f, t, l, r>>
+Or(l, r) == <<"or", "", "", l, r>>
+K1 == Pr("", "", Or(N, N), N)
+K2 == Pr("", "", Pr("a", "", Nf("x"), Nf("y")), N)
+K3 == Pr("", "", Pr("", "t", Nf("x"), N), N)
+K4 == Pr("", "", <<"option", "", "", Or(N, N)>>, N)
+K5 == Pr("", "", Or(Nf("l"), Nf("r")), N)
+K6 == Pr("", "", N, Pr("b", "", Nf("x"), Nf("y")))
+K7 == Or(Pr("", "", N, N), N)
+DeepU == {<<"set", "", "", K1>>, <<"map", "", "", K2, N>>, <<"set", "", "", K3>>, <<"map", "", "", K4, N>>, <<"big_map", "", "", K5, N>>,
+          <<"map", "", "", K6, N>>, <<"set", "", "", K7>>, Pr("", "", <<"set", "", "", K1>>, N), <<"map", "", "", K1, <<"set", "", "", K2>>>>,
+          <<"set", "", "", K2>>, <<"map", "", "", K5, N>>, <<"list", "", "", <<"map", "", "", K1, N>>>>}
+====
+"""
+
 # ep = every ep-th type (by a stable hash) also goes through ContractEntrypoint (0: none, 1: all)
 QUICK = [
     fam('rec', 2, 3, ['int'], bin=['pair'], fields=['a', 'int_1'], types=['a']),
@@ -39,6 +59,9 @@ QUICK = [
     fam('mix', 2, 1, ['int', 'unit'], bin=['pair', 'or'], un=['option'], fields=['a'], ep=6),
     fam('coll', 2, 0, ['int', 'string'], bin=['pair', 'or'], un=['option', 'list', 'set'], maps=['map', 'big_map']),
     fam('keys', 2, 1, ['nat'], bin=['pair', 'or'], un=['set'], maps=['map'], fields=['a']),
+    # %default (and another name) on inner nodes and leaves of a union: how the whole parameter is addressed depends on it
+    fam('sumdef', 2, 2, ['int', 'unit'], bin=['or'], fields=['default', 'f'], ep=1),
+    dict(fam('deep', 0, 0, ['nat']), deep=True),
 ]
 THOROUGH = [      # sizes (types): 9k 11k 16k 18k 4k 14k 3k 7k 2k 1k
     fam('rec4', 2, 4, ['int'], bin=['pair'], fields=['a', 'int_1', 'int_2'], types=['a']),
@@ -51,6 +74,8 @@ THOROUGH = [      # sizes (types): 9k 11k 16k 18k 4k 14k 3k 7k 2k 1k
     fam('coll', 2, 1, ['int', 'bytes'], bin=['pair', 'or'], un=['option', 'list', 'set'], maps=['map', 'big_map'], fields=['a']),
     fam('keys', 2, 2, ['nat'], bin=['pair', 'or'], un=['set', 'option'], maps=['map'], fields=['a', 'nat_1']),
     fam('opt3', 3, 1, ['int'], bin=['pair'], un=['option'], fields=['a']),
+    fam('sumdef', 2, 3, ['int', 'unit'], bin=['or'], fields=['default', 'f', 'root'], ep=1),
+    dict(fam('deep', 0, 0, ['nat']), deep=True),
 ]
 
 
@@ -466,6 +491,9 @@ def run_tlc_parallel(ctx, fams, timeout):
     """the families are independent configurations of one module: run them side by side"""
     def one(f):
         # action coverage (vacuity) is collected on the smallest family only: -coverage slows the big ones down a lot
+        if f.get('deep'):
+            return _tlc.run('MichPyDeep', f['cfg'].replace('Universe <- GenUniverse', 'Universe <- DeepU'), ctx.wd, name='MichPy_' + f['name'], workers=4, timeout=timeout,
+                            coverage=False, gen={'MichPyDeep': DEEP})
         return _tlc.run('MichPy', f['cfg'], ctx.wd, name='MichPy_' + f['name'], workers=4, timeout=timeout, coverage=f['name'] == 'keys')
     with concurrent.futures.ThreadPoolExecutor(max_workers=4) as ex:
         results = list(ex.map(one, fams))
